@@ -3,6 +3,7 @@ package props
 import (
 	"bytes"
 	"compress/flate"
+	"errors"
 	"fmt"
 	"io"
 	"testing"
@@ -45,8 +46,12 @@ func TestC01_Replay(t *testing.T) { h.RunReplay(t, "C01", checkC01) }
 // C01Seq: ONE long-lived service provider (same clock object) whose certificate store is replaced between
 // 2..3 attacker cases — key roll-over, per-tenant swap. The provenance oracle of every step uses the store
 // in force at that step: a message signed with a key that has just been retired must no longer be accepted.
+// With Dyn the store is a custom implementation that lives as long as the service provider: its ANSWER changes
+// (metadata refresh) and, at steps flagged in Errs, it fails (metadata endpoint down): nothing is trusted then.
 type C01Seq struct {
 	Steps []AttackCase `json:"steps"`
+	Dyn   bool         `json:"dyn,omitempty"`
+	Errs  []bool       `json:"errs,omitempty"`
 }
 
 func genC01Seq(t *rapid.T) C01Seq {
@@ -65,15 +70,33 @@ func genC01Seq(t *rapid.T) C01Seq {
 		}
 		q.Steps = append(q.Steps, c)
 	}
+	if q.Dyn = rapid.Bool().Draw(t, "dynStore"); q.Dyn {
+		for i := range q.Steps {
+			q.Errs = append(q.Errs, i > 0 && rapid.IntRange(0, 2).Draw(t, "storeFails") == 0)
+		}
+	}
 	return q
 }
 
 func checkC01Seq(q C01Seq) h.Outcome {
 	o := h.Outcome{NonTrivial: true, Classes: []string{"seq"}}
-	sp := q.Steps[0].SP.Build()
+	first := q.Steps[0].SP
+	first.DynStore = q.Dyn
+	sp := first.Build()
 	for i := range q.Steps {
 		c := q.Steps[i]
-		sp.IDPCertificateStore = h.Store(c.SP.Store)
+		if q.Dyn {
+			var err error
+			if q.Errs[i] {
+				err = errors.New("metadata endpoint unreachable")
+				c.SP.Store = nil // the oracle: nothing vouches
+				o.Classes = append(o.Classes, "store-fails")
+			}
+			sp.IDPCertificateStore.(*h.DynStore).Set(c.SP.Store, err)
+			o.Classes = append(o.Classes, "dyn-store")
+		} else {
+			sp.IDPCertificateStore = h.Store(c.SP.Store)
+		}
 		c.spFn = func() *saml2.SAMLServiceProvider { return sp }
 		so := h.Outcome{}
 		v := c.judgeSSO(&so)
